@@ -134,7 +134,7 @@ func (g *cloneGen) header(fn, param, name string) {
 	g.p("  opt dyntype %s *ast.%s", param, name)
 	g.p("  opt typednil yes")
 	g.p("  opt loopframe yes")
-	g.p("  opt nonnilfields expression Position")
+	g.p("  opt nonnilfields expression")
 	g.p("  modifies nothing")
 	g.p("  opt allocates yes")
 	g.p("  requires !typedNil(%s)", param)
@@ -169,10 +169,12 @@ func (g *cloneGen) header(fn, param, name string) {
 }
 
 // cloneMandatory: children that the grammar makes mandatory, so a parsed tree never has nil there (assumed of the
-// data; every other pointer or interface child may be nil and must then be nil in the copy).
+// data; every other pointer or interface child may be nil and must then be nil in the copy). Not in the table although
+// one might expect them: Raw.Text (nil for an empty raw block), Label.Statement (nil for a label before `}`),
+// Func.Body (nil for a declaration without body), and every node's Position (nil for the blocks of if, else, using).
 var cloneMandatory = map[string]bool{
-	"ForIn.Ident": true, "ForRange.Assignment": true, "Func.Type": true, "Func.Body": true, "Goto.Label": true,
-	"If.Then": true, "Label.Ident": true, "Label.Statement": true, "Raw.Text": true, "TypeDeclaration.Ident": true, "Using.Statement": true,
+	"ForIn.Ident": true, "ForRange.Assignment": true, "Func.Type": true, "Goto.Label": true,
+	"If.Then": true, "Label.Ident": true, "TypeDeclaration.Ident": true, "Using.Statement": true,
 }
 
 // spec emits the postconditions for T and the proposed loop invariants of the arm that handles T.
@@ -303,7 +305,9 @@ func (g *cloneGen) fieldSpec(o, c string, f *types.Var, owner string, depth int)
 					g.notes = append(g.notes, "Tree.Position is not specified (NewTree sets a fixed position)")
 					return nil
 				}
-				return []string{fmt.Sprintf("%s != nil && %s != %s && %s.Line == %s.Line && %s.Column == %s.Column && %s.Start == %s.Start && %s.End == %s.End", c, c, o, c, o, c, o, c, o, c, o)}
+				// the parser leaves the position of some nodes nil (the blocks of if/else/using): nil stays nil
+				return []string{fmt.Sprintf("(%s == nil) == (%s == nil)", c, o),
+					fmt.Sprintf("%s != nil ==> %s != %s && %s.Line == %s.Line && %s.Column == %s.Column && %s.Start == %s.Start && %s.End == %s.End", o, c, o, c, o, c, o, c, o, c, o)}
 			case "expression":
 				base := strings.TrimSuffix(o, ".expression")
 				cb := strings.TrimSuffix(c, ".expression")
@@ -648,7 +652,7 @@ func (g *cloneGen) walkUnit(name string) {
 	g.p("  props C28")
 	g.p("  opt dyntype node *ast.%s", name)
 	g.p("  opt typednil yes")
-	g.p("  opt nonnilfields expression Position")
+	g.p("  opt nonnilfields expression")
 	g.p("  opt ghostvisit Walk")
 	g.p("  opt puremethods Visit")
 	g.p("  requires v != nil && !typedNil(node)")
